@@ -86,11 +86,30 @@ func NewAnalysis(p *Prog, fn *ssa.Function) *Analysis {
 					}
 				}
 			}
-			if b, ok := in.(*ssa.BinOp); ok && b.Op == token.REM {
-				if c, ok := b.Y.(*ssa.Const); ok && c.Value != nil {
-					if v, ok := constant.Int64Val(constant.ToInt(c.Value)); ok && v > 1 && !seen[v] {
+			if b, ok := in.(*ssa.BinOp); ok && b.Op == token.QUO {
+				// x/c, multiplied back and compared with x, decides x % c
+				if c, ok := b.Y.(*ssa.Const); ok && c.Value != nil && c.Value.Kind() == constant.Int {
+					if v, ok := constant.Int64Val(constant.ToInt(c.Value)); ok && v > 1 && v <= 64 && !seen[v] {
 						seen[v] = true
 						a.moduli = append(a.moduli, v)
+					}
+				}
+			}
+			if b, ok := in.(*ssa.BinOp); ok && (b.Op == token.REM || b.Op == token.AND) {
+				if c, ok := b.Y.(*ssa.Const); ok && c.Value != nil && c.Value.Kind() == constant.Int {
+					if v, ok := constant.Int64Val(constant.ToInt(c.Value)); ok {
+						if b.Op == token.AND {
+							// x & (2^k - 1) is x % 2^k
+							if v <= 0 || v&(v+1) != 0 || v > 63 {
+								v = 0
+							} else {
+								v++
+							}
+						}
+						if v > 1 && !seen[v] {
+							seen[v] = true
+							a.moduli = append(a.moduli, v)
+						}
 					}
 				}
 			}
@@ -214,6 +233,18 @@ func (a *Analysis) step(st *State, fr *frame, in ssa.Instruction) {
 		a.bind(st, fr, x, l)
 	case *ssa.BinOp:
 		xe, ye := a.exprOf(st, fr, x.X), a.exprOf(st, fr, x.Y)
+		// a length masked or shifted by a constant is its remainder or
+		// quotient: len(b)&3 == len(b)%4, len(b)>>2 == len(b)/4
+		if cv, isC := ye.IsConst(); isC && xe.Op == "len" {
+			if x.Op == token.AND && cv > 0 && cv&(cv+1) == 0 {
+				a.bind(st, fr, x, mkBin(token.REM, xe, mkConst(cv+1, ye.Typ), x.Type(), x.X.Type()))
+				break
+			}
+			if x.Op == token.SHR && cv > 0 && cv < 31 {
+				a.bind(st, fr, x, mkBin(token.QUO, xe, mkConst(int64(1)<<uint(cv), xe.Typ), x.Type(), x.X.Type()))
+				break
+			}
+		}
 		a.bind(st, fr, x, mkBin(x.Op, xe, ye, x.Type(), x.X.Type()))
 	case *ssa.UnOp:
 		xe := a.exprOf(st, fr, x.X)
